@@ -209,6 +209,22 @@ def evaluate(r, prop, known):
         else:
             undecided.append('unattributed verifier message: ' + e['kind'])
     names_seen = set(r.breakdown.keys())
+    # functions of the repository that have no contract (new helpers introduced by a refactoring, mostly): a caller that fails
+    # to verify may only be failing because the callee says nothing -> undecided, never an alarm
+    contracted_names = set(c['name'] for c in asm.contracted)
+    repo_fn_names = set(f.name for fc in asm.files.values() for f in fc.fns)
+    uncontracted = repo_fn_names - contracted_names
+
+    def calls_uncontracted(c):
+        fc = asm.files.get(c['relpath'])
+        if fc is None:
+            return []
+        try:
+            f = fc.fn(c['name'], c['within'])
+        except Exception:
+            return []
+        body = fc.text[f.body_open:f.body_close] if f.body_open >= 0 else ''
+        return sorted(n for n in uncontracted if re.search(r'\b%s\s*(::<[^>]*>)?\(' % re.escape(n), body))
     for c in asm.contracted:
         cl = [(x, clause_tags(x, c['tags'])) for x in c['ensures']]
         # a body-level failure (violated callee precondition, overflow, ..) concerns every property the function carries
@@ -232,7 +248,11 @@ def evaluate(r, prop, known):
             obligations.append((safety_ob, 'body: no panic, overflow, out-of-bounds, violated callee precondition; loops terminate'))
         for x in my_clauses:
             obligations.append((q + ':ensures:' + x, x))
+        unk = calls_uncontracted(c) if errs else []
         for e in errs:
+            if unk and e['status'] == 'refuted':
+                undecided.append('%s: fails to verify but calls function(s) without a contract (%s): cannot tell a violation from a missing contract' % (q, ', '.join(unk)))
+                continue
             if e['status'] == 'undecided':
                 undecided.append('%s: %s' % (q, e['kind']))
                 continue
